@@ -54,6 +54,8 @@ type Run struct {
 	Forks      int
 	Inconcl    string // non-empty: run is inconclusive, with reason
 	Chooses    []int  // verifChoose results in order (for native replay)
+	ChooseK    map[string]int
+	YieldLog   []string // yield labels in the order they were passed
 	nameCtr    map[string]int
 	absCtr     int
 	itoaCtr    int
@@ -73,6 +75,8 @@ type Decl struct {
 }
 
 type Violation struct {
+	ChooseK map[string]int
+	Yields  []string
 	Label  string
 	Kind   string // "assert" | "panic" | "hang"
 	Site   string
@@ -103,6 +107,8 @@ type RunResult struct {
 	Decls      []Decl
 	Model      map[string]string // model of the final path condition (when requested)
 	Chooses    []int
+	ChooseK    map[string]int
+	Yields     []string
 	PCLen      int
 }
 
@@ -255,7 +261,7 @@ func (e *Engine) Execute(z *Solver, name string, prefix []int, maxDelays int, wa
 	res = RunResult{Outcome: r.S.Outcome, Trace: r.S.Trace, Events: r.S.Events, Steps: r.S.Steps,
 		SchedPts: r.S.SchedPts, Dur: time.Since(t0), Violations: r.Violations, Reached: r.Reached,
 		Shapes: r.Shapes, Observes: r.Observes, Asserts: r.Asserts, Forks: r.Forks, Inconcl: r.Inconcl,
-		Decls: r.Decls, Chooses: r.Chooses, PCLen: len(r.PC)}
+		Decls: r.Decls, Chooses: r.Chooses, ChooseK: r.ChooseK, Yields: r.YieldLog, PCLen: len(r.PC)}
 	res.Funcs = map[string]int{}
 	for f, n := range i.Funcs {
 		res.Funcs[f.String()] += n
